@@ -555,6 +555,9 @@ func (c *ColumnSchema) UnmarshalJSON(data []byte) error {
 	c.ephemeral = colJSON.Ephemeral
 	c.mutable = colJSON.Mutable
 	c.TypeObj = colJSON.Type
+	if c.TypeObj == nil || c.TypeObj.Key == nil {
+		return fmt.Errorf("cannot parse column object: missing type or key")
+	}
 
 	// Infer the ExtendedType from the TypeObj
 	if c.TypeObj.Value != nil {
